@@ -233,6 +233,29 @@ def extract():
             record("coverage.shuffle_order", rel6, t6, mfn, "shuffle .await; then verify_shuffle { reveal_keys; h*_verify }")
         else:
             fail("coverage.shuffle_order", "statement order of malicious_sharded_shuffle / verify_shuffle changed: the MAC keys must be opened only after the shuffle rounds were awaited")
+    # 6b. evidence for finding F14 (recorded, never failing): H1's part of the rounds ends with the `cardinality`
+    #     word, H2 sends that word before `c1`, and `malicious_reveal` sends its shares before it receives
+    rel8 = "protocol/ipa_prf/shuffle/sharded.rs"
+    t8 = read(rel8)
+    mh1 = re.search(r"pub\(super\) async fn h1_shuffle_for_shard.*?\n\}\n", t8, re.S)
+    mh2 = re.search(r"pub\(super\) async fn h2_shuffle_for_shard.*?\n\}\n", t8, re.S)
+    if mh1 and mh2:
+        b1, b2 = mh1.group(0), mh2.group(0)
+        aw = [m_.start() for m_ in re.finditer(r"\.await", b1)]
+        mc = re.search(r"ShuffleStep::Cardinality\)\s*\.recv_word", b1)
+        record("coverage.shuffle_h1_early_open.h1_last_await_is_cardinality", rel8, t8, mh1,
+               bool(mc and aw and mc.start() < aw[-1] and not re.search(r"\.await", b1[aw[-1] + 6:])) and "TransferC" not in b1)
+        mcs = re.search(r"ShuffleStep::Cardinality\)\s*\.send_word", b2)
+        mtc = re.search(r"ShuffleStep::TransferC\)", b2)
+        record("coverage.shuffle_h1_early_open.h2_cardinality_before_c1", rel8, t8, mh2, bool(mcs and mtc and mcs.start() < mtc.start()))
+    rel9 = "protocol/basics/reveal.rs"
+    t9 = read(rel9)
+    mr = re.search(r"pub async fn malicious_reveal.*?\n\}\n", t9, re.S)
+    if mr:
+        br = mr.group(0)
+        ms_ = re.search(r"try_join\(send_left_fut, send_right_fut\)\.await\?;", br)
+        mrc = re.search(r"left_receiver\.receive\(record_id\)", br)
+        record("coverage.shuffle_h1_early_open.reveal_sends_before_receiving", rel9, t9, mr, bool(ms_ and mrc and ms_.start() < mrc.start()))
     rel7 = "protocol/ipa_prf/shuffle/step.rs"
     t7 = read(rel7)
     e7 = parse_enums(t7)
